@@ -245,6 +245,12 @@ def build():
     enum("HUv2", [var("A", [F("n", i32), F("m", ("seq", "vec", 0, u8))], [("add", "n", "z5"), ("add", "m", "b0102")]),
                   var("T", [F("field0", u64)], [("add", "field0", "n7")], shape="tuple"),
                   var("S", [F("q", ("opt", s))], [("add", "q", "(0)")]), var("K", [F("k", u8)])])
+    # header names of 63 / 64 / 65 bytes (the length prefix of a name changes width at 64); Option spelled with a
+    # leading `::` under a FieldMadeOptional step
+    rec("LongNames", [F("a", u8), F("q" * 64, ("opt", u8), transient="(0)")],
+        [("rem", "x" * 64), ("rem", "y" * 63), ("tra", "q" * 64), ("rem", "z" * 65)])
+    rec("OptAbs", [F("a", ("opt", u8), "::std::option::Option"), F("b", u8), F("c", ("opt", s), "::core::option::Option")],
+        [("opt", "a"), ("add", "c", "(0)"), ("opt", "c")])
     # raw identifiers as field names: the wire name is the identifier as written (`r#type`), and evolution steps
     # name it that way
     rec("RawId", [F("r#type", u8), F("r#match", ("opt", s)), F("plain", i32)], [("opt", "r#match")])
